@@ -24,7 +24,7 @@ func init() {
 		Rule:  "every case is one arc operation (radii +-[0.005,1500] incl. zero and negative, any rotation, all four flag combinations, endpoint distance 0.01..150, radii factors {0.3 (scale-up), 0.999, 1.001, 1.5, 10} x half the chord, absolute and relative) under a PRNG viewBox-to-rectangle map with independent x/y scale 0.2..5 and off-origin viewBox; non-trivial = non-degenerate radii and distinct end points; distinctness by hash of the parameters",
 		Assumptions: []string{
 			"reference ref.ArcToCenter: SVG 1.1 F.6.5/F.6.6 in float64, own implementation",
-			"on-ellipse tolerance 1e-3 (a cubic spanning 90 degrees deviates 2.8e-4) plus a float32 conditioning term; sweep extent tolerance 2e-2 rad; endpoint 1e-5 relative",
+			"on-ellipse tolerance 1e-3 (a cubic spanning 90 degrees deviates 2.8e-4) plus a float32 conditioning term that grows as 1/chord when the chord is short compared with the radii (the centre is then ill-determined by the end points); sweep extent tolerance 2e-2 rad plus that term; endpoint 1e-5 relative",
 			"arcs with |radii check - 1| < 1e-4 (half turn fitting exactly) are excluded from the on-ellipse/extent checks only: centre and flags are ill-conditioned there",
 		},
 		Subs: []*run.Sub{
@@ -202,6 +202,15 @@ func c06Arc(c *run.Ctx, idx uint64) {
 	total := 0.0
 	p0 := [2]float64{float64(penX), float64(penY)}
 	minR := math.Min(a.RX, a.RY)
+	// The centre is determined by the two end points; when the chord is short
+	// compared with the radii (a nearly full ellipse) a rounding error eps of
+	// an end point moves the centre by about R*eps/chord. chordU is the chord
+	// length in unit-circle coordinates.
+	u1x, u1y := a.ToUnitCircle(X1, Y1)
+	u2x, u2y := a.ToUnitCircle(X2, Y2)
+	chordU := math.Hypot(u1x-u2x, u1y-u2y)
+	illFactor := 1 + 1/math.Max(chordU, 1e-12)
+	worstCond := 0.0
 	for ci, cl := range calls {
 		p1 := [2]float64{float64(cl.A[0]), float64(cl.A[1])}
 		p2 := [2]float64{float64(cl.A[2]), float64(cl.A[3])}
@@ -215,7 +224,8 @@ func c06Arc(c *run.Ctx, idx uint64) {
 			// float32 rounding of the recorded pixel coordinates and of the
 			// renderer's own viewBox-space arithmetic, relative to the radius
 			cond := 1e-6 * (math.Abs(a.CX) + math.Abs(a.CY) + math.Abs(ux) + math.Abs(uy) +
-				(math.Abs(p[0])+math.Abs(float64(penX)))/sx + (math.Abs(p[1])+math.Abs(float64(penY)))/sy) / minR
+				(math.Abs(p[0])+math.Abs(float64(penX)))/sx + (math.Abs(p[1])+math.Abs(float64(penY)))/sy) / minR * illFactor
+			worstCond = math.Max(worstCond, cond)
 			dev := math.Abs(rad-1) - cond
 			c.MaxF("worst_ellipse_deviation", math.Min(math.Max(dev, 0), 1))
 			if dev > 1e-3 {
@@ -235,7 +245,7 @@ func c06Arc(c *run.Ctx, idx uint64) {
 					da += 2 * math.Pi
 				}
 				total += da
-				if (fs && da < -1e-4) || (!fs && da > 1e-4) {
+				if (fs && da < -1e-4-4*cond) || (!fs && da > 1e-4+4*cond) {
 					fail("sweep-direction", map[string]interface{}{"segment": ci, "t": t, "step": da, "sweep_flag": fs})
 					return
 				}
@@ -246,7 +256,7 @@ func c06Arc(c *run.Ctx, idx uint64) {
 	}
 	serr := math.Abs(total - a.Delta)
 	c.MaxF("worst_sweep_error_rad", math.Min(serr, 7))
-	if serr > 2e-2 {
+	if serr > 2e-2+8*worstCond {
 		fail("sweep-extent", map[string]interface{}{"swept": total, "expected": a.Delta, "large_arc": fa, "sweep": fs})
 	}
 }
